@@ -261,6 +261,8 @@ class Parser:
 
     def parse_data(self) -> List[Dict]:
         self.tables: List[Dict] = []
+        self.comments = []
+        self.block_comments = []
         data = self.pre_process_data(self.data)
         regex_n = r"((?!\'[\w]*[\\']*[\w]*)\\n(?![\w]*[\\']*[\w]*\'))"
         data = data.replace("\\t", "")
